@@ -187,8 +187,8 @@ type Engine struct {
 	nfaults    int
 	nsnaps     int
 	Applied    map[string]bool // "<package name>.<function key>" of every contract applied at a call site (which supporting contracts a check rests on)
-	Go64       bool // dialect go64: fixed-width integers, overflow-freedom is an obligation
-	Sweep      bool // zero-annotation mode: loops are cut with the syntactic frame only
+	Go64       bool            // dialect go64: fixed-width integers, overflow-freedom is an obligation
+	Sweep      bool            // zero-annotation mode: loops are cut with the syntactic frame only
 	ufSig      map[string]string
 	unmodelled map[string]int
 	writes     map[*types.Func]bool
@@ -980,6 +980,13 @@ func (e *Engine) eval(fr *frame, st *State, x ast.Expr, k cont) {
 				k(st, mk(sx.Not(v.T), spec.KBool))
 			case token.SUB:
 				k(st, mk(sx.App("-", v.T), spec.KInt))
+			case token.AND:
+				// a pointer is identified with the value it points to (dialect go64); a callee outside the verified code that
+				// receives &x leaves x unconstrained afterwards (see havocAddressed)
+				if !e.Go64 {
+					panic("unary & outside dialect go64")
+				}
+				k(st, v)
 			default:
 				panic("unary " + x.Op.String())
 			}
